@@ -38,7 +38,7 @@ def check_expr(e, doms, res):
         try:
             mm = m.match(v)
             got = mm is None
-        except KeyboardInterrupt:
+        except (KeyboardInterrupt, X.Abort):
             got = X.PROPAGATE
         except Exception as ex:
             got = ("raised", type(ex).__name__, str(ex)[:120])
